@@ -60,9 +60,57 @@ fn forget(p: usize) {
     }
 }
 
+/// every heap block of the harness process is followed by a guard zone of GUARD bytes holding a fixed pattern; the
+/// zone is inspected when the block is freed or resized. A write past the end of a block (which leaves results
+/// intact and need not crash) is counted here and reported by the run (C01: per input; every property: per run)
+const GUARD: usize = 64;
+const GUARD_BYTE: u8 = 0xA7;
+pub static OVERRUNS: std::sync::atomic::AtomicUsize = std::sync::atomic::AtomicUsize::new(0);
+/// size of the first overrun block and how many guard bytes were changed (both + 1; 0 = none yet)
+static OVERRUN_SIZE: std::sync::atomic::AtomicUsize = std::sync::atomic::AtomicUsize::new(0);
+static OVERRUN_BYTES: std::sync::atomic::AtomicUsize = std::sync::atomic::AtomicUsize::new(0);
+#[inline]
+unsafe fn guard_fill(p: *mut u8, size: usize) {
+    if !p.is_null() {
+        std::ptr::write_bytes(p.add(size), GUARD_BYTE, GUARD);
+    }
+}
+#[inline]
+unsafe fn guard_check(p: *mut u8, size: usize) {
+    let g = std::slice::from_raw_parts(p.add(size), GUARD);
+    if g.iter().any(|&b| b != GUARD_BYTE) {
+        let changed = g.iter().filter(|&&b| b != GUARD_BYTE).count();
+        if OVERRUNS.fetch_add(1, Ordering::SeqCst) == 0 {
+            OVERRUN_SIZE.store(size + 1, Ordering::SeqCst);
+            OVERRUN_BYTES.store(changed + 1, Ordering::SeqCst);
+        }
+    }
+}
+fn guarded_layout(l: Layout) -> Layout {
+    unsafe { Layout::from_size_align_unchecked(l.size() + GUARD, l.align()) }
+}
+/// overruns seen since the last call: None, or a description of the first one
+pub fn take_overruns() -> Option<String> {
+    let n = OVERRUNS.swap(0, Ordering::SeqCst);
+    if n == 0 {
+        return None;
+    }
+    let (sz, by) = (OVERRUN_SIZE.swap(0, Ordering::SeqCst), OVERRUN_BYTES.swap(0, Ordering::SeqCst));
+    Some(format!("{n} heap block(s) were written past their end (first: a block of {} bytes, {} guard byte(s) changed)", sz.saturating_sub(1), by.saturating_sub(1)))
+}
+
 unsafe impl GlobalAlloc for Counting {
     unsafe fn alloc(&self, l: Layout) -> *mut u8 {
-        let p = System.alloc(l);
+        let p = System.alloc(guarded_layout(l));
+        guard_fill(p, l.size());
+        if TRACK.try_with(|t| t.get()).unwrap_or(false) {
+            remember(p as usize);
+        }
+        p
+    }
+    unsafe fn alloc_zeroed(&self, l: Layout) -> *mut u8 {
+        let p = System.alloc_zeroed(guarded_layout(l));
+        guard_fill(p, l.size());
         if TRACK.try_with(|t| t.get()).unwrap_or(false) {
             remember(p as usize);
         }
@@ -72,10 +120,13 @@ unsafe impl GlobalAlloc for Counting {
         if LIVE.load(Ordering::Relaxed) != 0 {
             forget(p as usize);
         }
-        System.dealloc(p, l)
+        guard_check(p, l.size());
+        System.dealloc(p, guarded_layout(l))
     }
     unsafe fn realloc(&self, p: *mut u8, l: Layout, n: usize) -> *mut u8 {
-        let q = System.realloc(p, l, n);
+        guard_check(p, l.size());
+        let q = System.realloc(p, guarded_layout(l), n + GUARD);
+        guard_fill(q, n);
         if q != p && LIVE.load(Ordering::Relaxed) != 0 {
             // a tracked block that moved stays tracked under its new address
             let mut i = slot(p as usize);
